@@ -65,11 +65,11 @@ def _case(draw, tier):
     elif depth:
         renamed = prob(draw, 0.12)
         outer, hidden, inactive = draw(gen.nest_spec(topo, depth, {}, permute_names=renamed))
-        if hidden:  # keep every inner output exposed: the diagram is judged on the full structure
+        if hidden or inactive:  # keep every inner node in play: the diagram is judged on the full structure
             outer, hidden, inactive = draw(gen.nest_spec(topo, depth, {}, permute_names=False))
             renamed = False
         nodes = outer
-        if hidden:
+        if hidden or inactive:
             depth = 0
             nodes = [dict(n) for n in topo]
     else:
